@@ -62,6 +62,10 @@ func secretsOfJob(j *Job) []string {
 	return []string{j.Auth.Secret}
 }
 
+// rapid_bool: a case-determined choice (no random source of its own): does the follow-up only re-send the assignment
+// or also reload the configuration
+func rapid_bool(c *c11Case) bool { return len(c.Targets)%2 == 0 }
+
 func runC11(rec *vkit.Recorder, c *c11Case) []vkit.Violation {
 	vs := runC11Phase(rec, c, c.Spec, nil)
 	return vs
@@ -189,6 +193,16 @@ func runC11Phase(rec *vkit.Recorder, c *c11Case, spec *Spec, st *c11State) (vs [
 					return
 				}
 				st.onlyTargets = true
+			case c.FollowUp == "stopScrape":
+				// scraping is administratively stopped (the coordinator distributes an extra configuration with the
+				// reason), then the assignment arrives again: the generated file is still the one for the
+				// assignment - scrapes fail at the proxy, targets do not vanish from Prometheus
+				b, _ := json.Marshal(&prom.ExtraConfig{StopScrapeReason: "disk of the remote store is full"})
+				if code, body := serve(st.svc, "POST", "http://s/api/v1/status/extra_config", b); code != 200 {
+					vs = append(vs, vkit.Violation{Key: "C11/harness", Msg: fmt.Sprintf("extra config answered %d %s", code, body)})
+					return
+				}
+				st.onlyTargets = rapid_bool(c)
 			case c.FollowUp == "ext":
 				applyExt(spec2, "change")
 			case strings.HasPrefix(c.FollowUp, "edit:"):
@@ -470,7 +484,9 @@ func genC11(t *rapid.T) *c11Case {
 				HTTPS: rapid.Bool().Draw(t, fmt.Sprintf("https-%d", h)), Extra: rapid.SampledFrom([]string{"", "x", "a: b", "quo\"te"}).Draw(t, fmt.Sprintf("extra-%d", h))})
 		}
 	}
-	switch rapid.IntRange(0, 5).Draw(t, "followUp") {
+	switch rapid.IntRange(0, 6).Draw(t, "followUp") {
+	case 6:
+		c.FollowUp = "stopScrape"
 	case 3:
 		c.FollowUp = "addGhost"
 		c.Targets = append(c.Targets, c11Target{Job: "job-that-no-longer-exists", Hash: 78, Addr: "10.9.9.8:1"})
